@@ -77,7 +77,12 @@ func (l *listener) Listen(ctx context.Context, onMessage func(msg message) error
 
 		return nil
 	})
-	defer func() { _ = eg.Wait() }()
+	// On any return, cancel the context first so that the goroutine above can
+	// finish, and only then wait for it.
+	defer func() {
+		cancel()
+		_ = eg.Wait()
+	}()
 
 	for {
 		// Receive and pass incoming NDP messages to the caller.
